@@ -239,7 +239,7 @@ func (d *Directory) GetOriginalDirectory(trim bool) (cdEntries, endOfDir []byte,
 		return nil, nil, errors.New("new zipfile, can't produce original directory")
 	}
 	var wcd, weod bytes.Buffer
-	if err := d.WriteDirectory(&wcd, nil, false); err != nil {
+	if err := d.WriteDirectory(&wcd, io.Discard, false); err != nil {
 		return nil, nil, err
 	}
 	end64 := d.end64
@@ -264,8 +264,13 @@ func (d *Directory) GetOriginalDirectory(trim bool) (cdEntries, endOfDir []byte,
 			end.CDOffset -= uint32(delta)
 		}
 	}
-	_ = binary.Write(&weod, binary.LittleEndian, end64)
-	_ = binary.Write(&weod, binary.LittleEndian, loc64)
+	// the ZIP64 records are only part of the original if it had them
+	if end64.Signature != 0 {
+		_ = binary.Write(&weod, binary.LittleEndian, end64)
+	}
+	if loc64.Signature != 0 {
+		_ = binary.Write(&weod, binary.LittleEndian, loc64)
+	}
 	_ = binary.Write(&weod, binary.LittleEndian, end)
 	return wcd.Bytes(), weod.Bytes(), nil
 }
